@@ -2,6 +2,7 @@
 C01 — Compress then decompress returns the original packet, bit for bit.
 -/
 import Schc.Proofs.Roundtrip
+import Schc.Proofs.Tiling
 import Schc.Proofs.Direction
 import Schc.Proofs.StackRoundtrip
 import Schc.Proofs.StackRoundtrip4
@@ -81,6 +82,75 @@ theorem C01_manager (rules : List Rule) (p : Packet) (d : Dir) (st : Strategy)
   · have hf' : (restrict r d).fields = [] := by rw [restrict_fields, hf]; rfl
     obtain ⟨c', h1, h2⟩ := C01_nocompression { p with dir := d } (restrict r d) hn hf' hraw
     rw [hcr'] at h1; cases h1; exact h2
+
+/-- End to end, from the bytes on the wire: for every stack configuration `factory` builds, every buffer its parser
+    accepts and every rule set as in `C01_manager` (the condition is on the rules that apply to the packet the parser
+    returns), `ContextManager.compress` followed by `ContextManager.decompress` with the same direction returns the
+    buffer, bit for bit. Joins C07 (the parsed fields and payload tile the buffer) with `C01_manager`. -/
+theorem C01_end_to_end (cfg : String) (hcfg : cfg ∈ supportedConfigs) (ps : List ParserInst) (hf : factory cfg = .ok ps)
+    (rules : List Rule) (b : ABuf) (d : Dir) (st : Strategy)
+    (hT : ∀ r ∈ rules, RuleTypeOK r) (hpf : PrefixFreeIds rules)
+    (hgood : ∀ p, packetParse (fuelFor b) ps b = .ok p → ∀ r ∈ rules, Spec.applicable { p with dir := d } r = true →
+      (r.nature = .compression ∧ AllFits p.fields (restrict r d).fields)
+      ∨ (r.nature = .noCompression ∧ r.fields = []))
+    (c : ABuf) (hc : managerCompress ps rules b d st = .ok c) :
+    managerDecompress rules c (some d) = .ok ⟨b.bits, .right⟩ := by
+  unfold managerCompress at hc
+  cases hp : packetParse (fuelFor b) ps b with
+  | error e => simp [hp, bind, Except.bind] at hc
+  | ok p =>
+    simp only [hp, bind, Except.bind] at hc
+    have hm : ∀ q ∈ ps, q.coapMode = .syntactic := by
+      have htab : supportedConfigs.all (fun c => match factory c with | .ok l => l.all (fun q => q.coapMode == .syntactic) | .error _ => false) = true := by decide
+      have := List.all_eq_true.mp htab cfg hcfg
+      rw [hf] at this
+      intro q hq
+      simpa using List.all_eq_true.mp this q hq
+    obtain ⟨t1, t2⟩ := packetParse_tiles (fuelFor b) ps hm b p hp
+    have hraw : p.raw.bits = p.fields.flatMap (·.value.bits) ++ p.payload.bits := by rw [t2, ← t1]; rfl
+    have := C01_manager rules p d st hT hpf (hgood p hp) hraw c hc
+    rw [this, t2]
+
+namespace EndToEndExample
+def bytesBits (l : List Nat) : Bits := l.flatMap (Bits.ofNat 8)
+def exBuf : ABuf := ⟨bytesBits [0x03,0xe8, 0x07,0xd0, 0x00,0x09, 0xab,0xcd, 0x41], .left⟩
+def exRule : Rule := ⟨⟨[true,false,true], .left⟩, .compression,
+  [⟨"UDP:Source Port", 16, 0, .bi, .buf ⟨bytesBits [0x03,0xe8], .left⟩, .equal, .notSent⟩,
+   ⟨"UDP:Destination Port", 16, 0, .up, .buf ⟨bytesBits [0x07], .left⟩, .msb, .lsb⟩,
+   ⟨"UDP:Destination Port", 16, 0, .dw, .buf ⟨bytesBits [0x08], .left⟩, .msb, .lsb⟩,
+   ⟨"UDP:Length", 16, 0, .bi, .buf ⟨[], .left⟩, .ignore, .valueSent⟩,
+   ⟨"UDP:Checksum", 0, 0, .bi, .buf ⟨[], .left⟩, .ignore, .valueSent⟩]⟩
+
+/-- non-vacuity of `C01_end_to_end`: a UDP datagram (ports 1000 → 2000, payload "A") through the "UDP" stack with a rule
+    mixing equal/not-sent, MSB/LSB (one descriptor per direction), fixed and variable-length value-sent: every
+    hypothesis holds, so compress → decompress returns the nine bytes -/
+example : ∃ ps c, factory "UDP" = .ok ps ∧ managerCompress ps [exRule] exBuf .up .best = .ok c ∧
+    managerDecompress [exRule] c (some .up) = .ok ⟨exBuf.bits, .right⟩ := by
+  obtain ⟨ps, hps⟩ : ∃ ps, factory "UDP" = .ok ps := ⟨_, rfl⟩
+  obtain ⟨c, hc⟩ : ∃ c, managerCompress ps [exRule] exBuf .up .best = .ok c := by
+    have : factory "UDP" = .ok ps := hps
+    cases this; exact ⟨_, rfl⟩
+  refine ⟨ps, c, hps, hc, ?_⟩
+  · refine C01_end_to_end "UDP" (by decide) ps hps [exRule] exBuf .up .best ?_ ?_ ?_ c hc
+    · intro r hr rf hrf
+      simp only [List.mem_singleton] at hr; subst hr
+      simp only [exRule, List.mem_cons, List.not_mem_nil, or_false] at hrf
+      rcases hrf with h | h | h | h | h <;> subst h <;> simp [MoTypeOK]
+    · intro a ha b hb _
+      simp only [List.mem_singleton] at ha hb; rw [ha, hb]
+    · intro p hp r hr _
+      simp only [List.mem_singleton] at hr; subst hr
+      cases hps
+      cases hp
+      left
+      refine ⟨rfl, ?_⟩
+      show AllFits (_ :: _ :: _ :: _ :: []) (_ :: _ :: _ :: _ :: [])
+      refine ⟨?_, ?_, ?_, ?_, trivial⟩
+      · trivial
+      · exact ⟨rfl, by intro h; cases h⟩
+      · show (16 : Nat) = _; decide
+      · show _ < 65536; decide
+end EndToEndExample
 
 /-- non-vacuity: all four lossless pairings, a variable-length LSB field, 3-bit rule ID, unaligned payload -/
 example :
